@@ -85,6 +85,47 @@ T = {
  "C19-4": ("write_png: encoder dimensions swapped", "non-square surface"),
  "C20-3": ("PathBuilder::arc: sweeps beyond a full turn clamped to +2pi (sign dropped)", "sweep < -2pi"),
  "C20-4": ("Path::transform rebuilt through PathBuilder, winding rule lost", "EvenOdd path"),
+ # round 3 (k = 5, 6): "changes a systematic small-input checker could still miss"
+ "C01-5": ("rasterizer.rs scan_edges: winding accumulator narrowed to i8 by a dropped cast", "128 (overflow checks) / 256 (wrap) coincident same-direction contours in one path"),
+ "C01-6": ("rasterizer.rs ActiveEdge: end point stored as saturating i16", "surface 8192 rows or taller with a polygon reaching y >= 8192"),
+ "C02-5": ("draw_target.rs push_clip_rect stops cloning the mask; helper finds the innermost mask; push_clip still combines with the top entry only", "clip path, one or more clip rects, clip path (depth 3 in that order): the outer path stops clipping"),
+ "C02-6": ("draw_target.rs composite(): rows handed over in 1024-pixel pieces, mask start not advanced", "clipped bounding box wider than 1024 pixels with coverage that differs 1024 px apart"),
+ "C03-5": ("blitter.rs ShaderMaskBlitter::blit_span: spans shaded in 2048-pixel pieces, coverage read from the piece start", "SrcOver with a mask, no clip path, span longer than 2048 px with non-periodic coverage"),
+ "C03-6": ("draw_target.rs clear(): slow branch routed through fill_rect, transform no longer reset", "clear() under a clip or inside a layer with a non-identity transform"),
+ "C04-5": ("stroke.rs stroke_to_path: output path inherits the fill rule of the stroked path", "path.winding = EvenOdd (inner corners and doubly covered spots become holes)"),
+ "C04-6": ("stroke.rs compute_normal: segments of length <= 1/4096 treated as zero-length", "vertices closer than 0.000244 user units that are visible under a large current transform"),
+ "C05-5": ("draw_target.rs push_clip: rasterises the clip path with Winding::NonZero regardless of path.winding", "EvenOdd clip path with a region of even non-zero winding"),
+ "C05-6": ("draw_target.rs push_clip: pixel-aligned-rectangle fast path builds the rect from the first and third points unordered", "five-op integer-aligned rectangular clip path described backwards (negative size, mirrored / quarter-turn transform)"),
+ "C06-5": ("blitter.rs ShaderBlendBlitter::blit_span: shader handed layer-relative coordinates", "fill_rect fast path with a gradient or image inside a layer whose origin is not the surface origin (outer clip popped inside the layer)"),
+ "C06-6": ("draw_target.rs pop_layer: layer composited in bands of 64K mask entries, band start uses the surface width", "surface of more than 65536 pixels, layer narrower than the surface and taller than one band"),
+ "C07-5": ("rasterizer.rs scan_edges: i8 winding accumulator", "128 or more same-direction edges crossing one sample row (many overlapping contours, wide pen on a circle)"),
+ "C07-6": ("stroke.rs join_line: negation lost in the miter-limit test", "a near-reversal (hairpin) with Miter join: the uncut miter tip lies tens of thousands of pixels away and overflows the rasteriser"),
+ "C08-5": ("rasterizer.rs add_edge: subdivision clamp applied to shift/count only, coefficients use the unclamped value", "a quad with |p0 - 2 ctrl + p2| of about 4096 device px or more"),
+ "C08-6": ("draw_target.rs add_quad: 'flat quad becomes a line' shortcut compares against |chord|^2", "long gently bowed quad: control point within 1% of the chord length of the chord, chord of several hundred px"),
+ "C09-5": ("dash.rs Close arm: dash state no longer reset", "a subpath begun by LineTo directly after Close"),
+ "C09-6": ("stroke.rs compute_normal: segments <= 1/4096 degenerate", "dash entries of 0.0002 with round / square caps (dots vanish); dash ending within 0.000244 past a vertex"),
+ "C10-5": ("draw_target.rs: cached inverse transform not refreshed when pop_layer / clear restore the transform by assignment", "non-identity transform; pop_layer or clear under a clip; then a gradient or image draw without a new set_transform"),
+ "C10-6": ("draw_target.rs push_clip: early return under an empty clip rect placed after apply_path (rasteriser not reset)", "empty clip rect, push_clip of an on-surface path, then any rasterising call"),
+ "C11-5": ("draw_target.rs composite(): |det T| <= f32::EPSILON treated as singular", "invertible transform with determinant below 1.19e-7 (scale 1/4096, or scale(1, 1e-7)) and correspondingly large user coordinates"),
+ "C11-6": ("path_builder.rs flatten(): tolerance clamped from below at 0.01", "curved stroke under a scale of 30 or more (tolerance 0.1/scale falls below the clamp)"),
+ "C12-5": ("blitter.rs ShaderClipMaskBlitter::blit_span: span trimmed to the clip coverage but the shader still started at x1", "clip path + SrcOver gradient whose rows begin with uncovered pixels"),
+ "C12-6": ("draw_target.rs: cached inverse transform stale after pop_layer / clear", "set_transform(T); push_layer + pop_layer (or clear under a clip); gradient draw"),
+ "C13-5": ("blitter.rs is_integer_transform: comparisons with a 1e-4 epsilon", "sampling matrix within 1e-4 of an integer translation (scale 1.00009): wrong texel beyond about 5000 px"),
+ "C13-6": ("blitter.rs nearest shaders: row-hoisting shortcut guarded by the wrong matrix entry", "one-sided skew y' = kx + y with Nearest filtering"),
+ "C14-5": ("blitter.rs ShaderBlendBlitter::blit_span: spans shaded in 1024-pixel pieces always from the span start", "fast-path fill_rect / draw_image_at wider than 1024 px with a source that varies along x"),
+ "C14-6": ("draw_target.rs draw_image_at: builds its own Nearest source instead of delegating", "draw_image_at under a transform that is not an integer translation"),
+ "C15-5": ("draw_target.rs composite_surface: hoisted source row index multiplies destination row by source width in i32", "tall destination and wide source with dest.height x src.width > 2^31"),
+ "C15-6": ("draw_target.rs composite_surface: all intersections in destination space (src_rect translated before being limited to the source)", "src_rect reaching i32::MAX with a positive destination"),
+ "C16-5": ("path_builder.rs flatten(): at most 512 segments per curve, the last one jumps to the end", "curve needing more than 513 segments (size / tolerance around 1e6)"),
+ "C16-6": ("path_builder.rs flatten(): tolerance.max(0.01)", "tolerance below 0.01"),
+ "C17-5": ("path_builder.rs contains_point: LineTo segments shorter than the tolerance skipped", "a segment shorter than the tolerance whose y-range contains the query point (large tolerance, or finely divided outline)"),
+ "C17-6": ("path_builder.rs contains_point: flatten(tolerance.max(0.1))", "curved path, tolerance below 0.1, query point between the two flattenings"),
+ "C18-5": ("blitter.rs choose_shader: single-stop gradients drawn as a solid without premultiplying", "linear or radial gradient with exactly one translucent stop"),
+ "C18-6": ("blitter.rs ImagePadAlphaShader: alpha_mul arguments swapped for the left padding", "Pad image, integer translation, span starting left of the image, alpha < 1"),
+ "C19-5": ("draw_target.rs write_png: 16384-pixel bands through a reused scratch buffer with a skip-zero fast path", "more than 16384 pixels, a zero word whose band offset held a non-zero word in an earlier band"),
+ "C19-6": ("draw_target.rs write_png: rows-per-band computed without .max(1)", "surface at least 16385 pixels wide"),
+ "C20-5": ("path_builder.rs Path::transform: scale+offset fast path via euclid's epsilon test", "transform with non-zero off-diagonal entries below 1e-6 applied to coordinates of 1e6 and more"),
+ "C20-6": ("path_builder.rs arc(): leading line skipped when a (wrongly computed) current point equals the arc start", "arc() directly after close() when the last vertex before the close is exactly the arc's start"),
 }
 rows = []
 for sid, (what, needs) in sorted(T.items()):
